@@ -264,7 +264,6 @@ func (ex *Executor) dispatchCall(st *State, fr *Frame, cc *ssa.CallCommon, fv Va
 			if i < len(binds) {
 				nf.vals[v] = binds[i]
 				nf.locals[v.Name()] = localRef{v: binds[i], isAddr: true}
-				nf.params[v.Name()] = binds[i]
 			} else {
 				nf.vals[v] = ex.freshOfType(st, "fv", v.Type())
 			}
@@ -723,6 +722,10 @@ func (ex *Executor) writtenInBlocks(fn *ssa.Function, blocks map[*ssa.BasicBlock
 		for _, ins := range b.Instrs {
 			switch x := ins.(type) {
 			case *ssa.Store:
+				// writes into objects allocated inside these blocks cannot change pre-existing heap locations
+				if freshIn(x.Addr, blocks) {
+					continue
+				}
 				switch a := x.Addr.(type) {
 				case *ssa.FieldAddr:
 					owner := a.X.Type().Underlying().(*types.Pointer).Elem()
@@ -820,4 +823,25 @@ func (ex *Executor) havocGlobalsWritten(st *State, fn *ssa.Function, blocks map[
 			}
 		}
 	}
+}
+
+// freshIn: the address is (a field / element of) an object allocated by an instruction inside blocks
+func freshIn(a ssa.Value, blocks map[*ssa.BasicBlock]bool) bool {
+	for i := 0; i < 8; i++ {
+		switch x := a.(type) {
+		case *ssa.Alloc:
+			return blocks[x.Block()]
+		case *ssa.FieldAddr:
+			a = x.X
+		case *ssa.IndexAddr:
+			if _, ok := x.X.Type().Underlying().(*types.Pointer); ok {
+				a = x.X
+			} else {
+				return false
+			}
+		default:
+			return false
+		}
+	}
+	return false
 }
